@@ -84,6 +84,16 @@ pub fn build(children: usize, boundary_groups: &[usize]) -> RelZoo {
   zoo.tx(vec![(f, png(&[], b"fee-spent"))], vec![(0, Spk::OpReturn.script())]);
   zoo.mine();
   zoo.mine();
+  // past the jubilee (regtest height 110): inscriptions of cursed kinds are vindicated there
+  while zoo.world.height() < 110 {
+    zoo.mine();
+  }
+  zoo.reveal(&[png(&[], b"post-jubilee-first"), png(&[], b"post-jubilee-second-in-same-input")], Spk::C.script());
+  zoo.reveal(&[png(&[(2, vec![0x01])], b"post-jubilee-pointer")], Spk::A.script());
+  let (f1, f2) = (zoo.fund(), zoo.fund());
+  zoo.tx(vec![(f1, vec![]), (f2, png(&[], b"post-jubilee-second-input"))], vec![(FUND, Spk::B.script()), (FUND, Spk::A.script())]);
+  zoo.mine();
+  zoo.mine();
   RelZoo { zoo, parent: p0 }
 }
 
